@@ -206,6 +206,8 @@ class Sim(object):
             return
         w = run.current
         run.point(w, "aug_pre", X, cells)
+        if isinstance(v, Tracked):
+            v = np.asarray(v)
         old = X.arr[idx]
         if isinstance(old, np.ndarray):
             old = old.copy()
